@@ -235,3 +235,467 @@ Proof.
   intros Hin. apply in_map_iff in Hin. destruct Hin as [[k v] [Hk Hin]]. cbn in Hk. subst k.
   apply filter_In in Hin. destruct Hin as [Hin _]. exact (in_keys _ _ _ Hin).
 Qed.
+
+(* ------------------------------------------------------------------------------------------ *)
+(* 3. Shapes of the handlers; well-formedness is an invariant                                  *)
+(* ------------------------------------------------------------------------------------------ *)
+
+Definition grp_or_empty (cl : cluster) (g : Z) : cgroup :=
+  match get (cl_consumer cl) g with Some x => x | None => empty_group end.
+
+Lemma get_broker_offset_none cl t p : get (cl_broker cl) t = None -> get_broker_offset cl t p = (0, 0).
+Proof. intros H. unfold get_broker_offset. rewrite H. reflexivity. Qed.
+
+Lemma get_broker_offset_cnt cl t p b cnt :
+  get_broker_offset cl t p = (b, cnt) -> cnt <> 0 -> get (cl_broker cl) t <> None.
+Proof.
+  intros H Hc Hn. rewrite (get_broker_offset_none _ _ _ Hn) in H. injection H as _ <-. apply Hc. reflexivity.
+Qed.
+
+Lemma add_broker_offset_shape cf st c t p cnt off :
+  add_broker_offset cf st c t p cnt off = Done st RNone \/
+  add_broker_offset cf st c t p cnt off = Crashed \/
+  exists cl tl, get st c = Some cl /\
+    add_broker_offset cf st c t p cnt off = Done (set st c (mkCluster (set (cl_broker cl) t tl) (cl_consumer cl))) RNone.
+Proof.
+  unfold add_broker_offset. destruct (get st c) as [cl|] eqn:Hc; [|left; reflexivity].
+  cbv zeta.
+  match goal with |- context [if ?b then Crashed else _] => destruct b end; [right; left; reflexivity|].
+  right. right. eexists cl, _. split; [reflexivity|reflexivity].
+Qed.
+
+Lemma add_consumer_offset_shape cf now st c g t p off order ts :
+  add_consumer_offset cf now st c g t p off order ts = Done st RNone \/
+  exists cl parts last, get st c = Some cl /\ cf_accept cf g = true /\ too_old cf now ts = false /\
+    get (cl_broker cl) t <> None /\
+    add_consumer_offset cf now st c g t p off order ts =
+      Done (set st c (mkCluster (cl_broker cl)
+                        (set (cl_consumer cl) g (mkCgroup (set (g_topics (grp_or_empty cl g)) t parts) last)))) RNone.
+Proof.
+  unfold add_consumer_offset, grp_or_empty.
+  destruct (get st c) as [cl|] eqn:Hc; [|left; reflexivity].
+  destruct (too_old cf now ts) eqn:Hold; [left; reflexivity|].
+  destruct (cf_accept cf g) eqn:Ha; cbn [negb]; [|left; reflexivity].
+  destruct (get_broker_offset cl t p) as [boff cnt] eqn:Hb.
+  destruct (cnt =? 0) eqn:Hz; [left; reflexivity|].
+  right. cbv zeta.
+  match goal with |- context [ring_step ?a ?b ?x ?d] => destruct (ring_step a b x d) as [w' app] end.
+  eexists cl, _, _. split; [reflexivity|]. split; [reflexivity|]. split; [reflexivity|].
+  split; [|reflexivity].
+  apply (get_broker_offset_cnt _ _ _ _ _ Hb). apply Z.eqb_neq. exact Hz.
+Qed.
+
+Lemma add_consumer_owner_shape cf st c g t p owner client :
+  add_consumer_owner cf st c g t p owner client = Done st RNone \/
+  exists cl, get st c = Some cl /\ cf_accept cf g = true /\
+    (add_consumer_owner cf st c g t p owner client =
+       Done (set st c (mkCluster (cl_broker cl) (set (cl_consumer cl) g (grp_or_empty cl g)))) RNone \/
+     exists parts, get (cl_broker cl) t <> None /\
+       add_consumer_owner cf st c g t p owner client =
+         Done (set st c (mkCluster (cl_broker cl)
+                 (set (cl_consumer cl) g (mkCgroup (set (g_topics (grp_or_empty cl g)) t parts)
+                                                   (g_last (grp_or_empty cl g)))))) RNone).
+Proof.
+  unfold add_consumer_owner, grp_or_empty.
+  destruct (get st c) as [cl|] eqn:Hc; [|left; reflexivity].
+  destruct (cf_accept cf g) eqn:Ha; cbn [negb]; [|left; reflexivity].
+  right. exists cl. split; [reflexivity|]. split; [reflexivity|].
+  cbv zeta.
+  destruct (get_broker_offset cl t p) as [boff cnt] eqn:Hb.
+  destruct (cnt =? 0) eqn:Hz; [left; reflexivity|].
+  right. eexists. split; [|reflexivity].
+  apply (get_broker_offset_cnt _ _ _ _ _ Hb). apply Z.eqb_neq. exact Hz.
+Qed.
+
+Lemma clear_consumer_owners_shape cf st c g :
+  clear_consumer_owners cf st c g = Done st RNone \/
+  exists cl grp, get st c = Some cl /\ cf_accept cf g = true /\ get (cl_consumer cl) g = Some grp /\
+    clear_consumer_owners cf st c g =
+      Done (set st c (mkCluster (cl_broker cl) (set (cl_consumer cl) g (clear_owners_group grp)))) RNone.
+Proof.
+  unfold clear_consumer_owners.
+  destruct (get st c) as [cl|] eqn:Hc; [|left; reflexivity].
+  destruct (cf_accept cf g) eqn:Ha; cbn [negb]; [|left; reflexivity].
+  destruct (get (cl_consumer cl) g) as [grp|] eqn:Hg; [|left; reflexivity].
+  right. exists cl, grp. split; [reflexivity|]. split; [reflexivity|]. split; [exact Hg|reflexivity].
+Qed.
+
+(* the deletion handlers as one expression *)
+Definition dg_cons (cons : amap cgroup) (g t : Z) : amap cgroup :=
+  match get cons g with
+  | None => cons
+  | Some grp =>
+      if t =? 0 then remove cons g
+      else match remove (g_topics grp) t with
+           | [] => remove cons g
+           | tops => set cons g (mkCgroup tops (g_last grp))
+           end
+  end.
+
+Definition dt_group (t : Z) (grp : cgroup) : cgroup := mkCgroup (remove (g_topics grp) t) (g_last grp).
+Definition dt_cluster (cl : cluster) (t : Z) : cluster :=
+  mkCluster (remove (cl_broker cl) t) (map_vals (dt_group t) (cl_consumer cl)).
+
+Lemma delete_group_eq st c g t :
+  delete_group st c g t =
+  Done (match get st c with
+        | None => st
+        | Some cl => match get (cl_consumer cl) g with
+                     | None => st
+                     | Some _ => set st c (mkCluster (cl_broker cl) (dg_cons (cl_consumer cl) g t))
+                     end
+        end) RNone.
+Proof.
+  unfold delete_group, dg_cons. destruct (get st c) as [cl|]; [|reflexivity].
+  destruct (get (cl_consumer cl) g) as [grp|]; [|reflexivity].
+  destruct (t =? 0); [reflexivity|]. destruct (remove (g_topics grp) t); reflexivity.
+Qed.
+
+Lemma delete_topic_eq st c t :
+  delete_topic st c t =
+  Done (match get st c with None => st | Some cl => set st c (dt_cluster cl t) end) RNone.
+Proof. unfold delete_topic, dt_cluster, dt_group. destruct (get st c); reflexivity. Qed.
+
+(* well-formedness *)
+Lemma wf_state_set s c cl' : wf_state s -> wf_cluster cl' -> wf_state (set s c cl').
+Proof.
+  intros [Hnd Hall] Hcl. split; [apply nodup_set; exact Hnd|].
+  intros c0 cl0. rewrite get_set. destruct (c =? c0); [|apply Hall].
+  intros H. injection H as <-. exact Hcl.
+Qed.
+
+Lemma wf_cluster_set_group cl g grp' b :
+  wf_cluster cl -> NoDup (keys b) -> NoDup (keys (g_topics grp')) ->
+  wf_cluster (mkCluster b (set (cl_consumer cl) g grp')).
+Proof.
+  intros [_ [Hc Hg]] Hb Hg'. split; [exact Hb|]. split; [apply nodup_set; exact Hc|].
+  cbn [cl_consumer]. intros g0 grp0. rewrite get_set. destruct (g =? g0); [|apply Hg].
+  intros H. injection H as <-. exact Hg'.
+Qed.
+
+Lemma wf_cluster_remove_group cl g b :
+  wf_cluster cl -> NoDup (keys b) -> wf_cluster (mkCluster b (remove (cl_consumer cl) g)).
+Proof.
+  intros [_ [Hc Hg]] Hb. split; [exact Hb|]. split; [apply nodup_remove; exact Hc|].
+  cbn [cl_consumer]. intros g0 grp0. rewrite get_remove. destruct (g =? g0); [discriminate|apply Hg].
+Qed.
+
+Lemma wf_grp_or_empty cl g : wf_cluster cl -> NoDup (keys (g_topics (grp_or_empty cl g))).
+Proof.
+  intros [_ [_ Hg]]. unfold grp_or_empty. destruct (get (cl_consumer cl) g) as [grp|] eqn:E.
+  - exact (Hg _ _ E).
+  - constructor.
+Qed.
+
+Lemma wf_dg_cons cl g t : wf_cluster cl -> wf_cluster (mkCluster (cl_broker cl) (dg_cons (cl_consumer cl) g t)).
+Proof.
+  intros Hwf. pose proof Hwf as [Hb [Hc Hg]]. unfold dg_cons.
+  destruct (get (cl_consumer cl) g) as [grp|] eqn:E.
+  - destruct (t =? 0); [apply wf_cluster_remove_group; assumption|].
+    destruct (remove (g_topics grp) t) as [|kv r] eqn:Er; [apply wf_cluster_remove_group; assumption|].
+    apply wf_cluster_set_group; [assumption|assumption|]. cbn [g_topics]. rewrite <- Er.
+    apply nodup_remove. exact (Hg _ _ E).
+  - split; [exact Hb|]. split; [exact Hc|exact Hg].
+Qed.
+
+Lemma wf_dt_cluster cl t : wf_cluster cl -> wf_cluster (dt_cluster cl t).
+Proof.
+  intros [Hb [Hc Hg]]. unfold dt_cluster. split; [apply nodup_remove; exact Hb|].
+  split; [apply nodup_map_vals; exact Hc|]. cbn [cl_consumer].
+  intros g grp. rewrite get_map_vals. destruct (get (cl_consumer cl) g) as [grp0|] eqn:E; [|discriminate].
+  cbn [option_map]. intros H. injection H as <-. cbn [dt_group g_topics]. apply nodup_remove. exact (Hg _ _ E).
+Qed.
+
+Lemma fetch_consumer_state cf now st c g st' rep :
+  fetch_consumer cf now st c g = Done st' rep ->
+  st' = st \/
+  exists cl grp, get st c = Some cl /\ get (cl_consumer cl) g = Some grp /\ expired cf now (g_last grp) = true /\
+    rep = RNil /\ st' = set st c (mkCluster (cl_broker cl) (remove (cl_consumer cl) g)).
+Proof.
+  unfold fetch_consumer. destruct (get st c) as [cl|] eqn:Hc; [|intros H; injection H as <- _; left; reflexivity].
+  destruct (get (cl_consumer cl) g) as [grp|] eqn:Hg; [|intros H; injection H as <- _; left; reflexivity].
+  destruct (expired cf now (g_last grp)) eqn:He.
+  - intros H. injection H as <- <-. right. exists cl, grp.
+    split; [reflexivity|]. split; [exact Hg|]. split; [exact He|]. split; reflexivity.
+  - cbv zeta. match goal with |- context [fetch_topics_lags ?a ?b] => destruct (fetch_topics_lags a b) end;
+      [|discriminate]. intros H. injection H as <- _. left. reflexivity.
+Qed.
+
+Theorem step_wf cf now s r s' rep : wf_state s -> step cf now s r = Done s' rep -> wf_state s'.
+Proof.
+  intros Hwf. pose proof Hwf as [Hnd Hall]. destruct r; cbn [step].
+  - (* SetBrokerOffset *)
+    destruct (add_broker_offset_shape cf s c t p cnt off) as [E|[E|[cl [tl [Hc E]]]]]; rewrite E; intros H;
+      [injection H as <- _; exact Hwf|discriminate|injection H as <- _].
+    apply wf_state_set; [exact Hwf|]. destruct (Hall _ _ Hc) as [Hb [Hcn Hg]].
+    split; [apply nodup_set; exact Hb|]. split; [exact Hcn|exact Hg].
+  - (* SetConsumerOffset *)
+    destruct (add_consumer_offset_shape cf now s c g t p off order ts) as [E|[cl [parts [lst [Hc [_ [_ [_ E]]]]]]]];
+      rewrite E; intros H; injection H as <- _; [exact Hwf|].
+    apply wf_state_set; [exact Hwf|]. pose proof (Hall _ _ Hc) as Hcl.
+    apply wf_cluster_set_group; [exact Hcl|apply Hcl|]. cbn [g_topics]. apply nodup_set.
+    apply wf_grp_or_empty. exact Hcl.
+  - (* SetConsumerOwner *)
+    destruct (add_consumer_owner_shape cf s c g t p owner client) as [E|[cl [Hc [_ [E|[parts [_ E]]]]]]];
+      rewrite E; intros H; injection H as <- _; [exact Hwf| |].
+    + apply wf_state_set; [exact Hwf|]. pose proof (Hall _ _ Hc) as Hcl.
+      apply wf_cluster_set_group; [exact Hcl|apply Hcl|]. apply wf_grp_or_empty. exact Hcl.
+    + apply wf_state_set; [exact Hwf|]. pose proof (Hall _ _ Hc) as Hcl.
+      apply wf_cluster_set_group; [exact Hcl|apply Hcl|]. cbn [g_topics]. apply nodup_set.
+      apply wf_grp_or_empty. exact Hcl.
+  - (* ClearConsumerOwners *)
+    destruct (clear_consumer_owners_shape cf s c g) as [E|[cl [grp [Hc [_ [Hg E]]]]]];
+      rewrite E; intros H; injection H as <- _; [exact Hwf|].
+    apply wf_state_set; [exact Hwf|]. pose proof (Hall _ _ Hc) as Hcl.
+    apply wf_cluster_set_group; [exact Hcl|apply Hcl|]. unfold clear_owners_group. cbn [g_topics].
+    apply nodup_map_vals. destruct Hcl as [_ [_ Hgs]]. exact (Hgs _ _ Hg).
+  - (* DeleteTopic *)
+    rewrite delete_topic_eq. intros H. injection H as <- _.
+    destruct (get s c) as [cl|] eqn:Hc; [|exact Hwf].
+    apply wf_state_set; [exact Hwf|]. apply wf_dt_cluster. exact (Hall _ _ Hc).
+  - (* DeleteGroup *)
+    rewrite delete_group_eq. intros H. injection H as <- _.
+    destruct (get s c) as [cl|] eqn:Hc; [|exact Hwf].
+    destruct (get (cl_consumer cl) g); [|exact Hwf].
+    apply wf_state_set; [exact Hwf|]. apply wf_dg_cons. exact (Hall _ _ Hc).
+  - intros H. injection H as <- _. exact Hwf.
+  - destruct (get s c); intros H; injection H as <- _; exact Hwf.
+  - destruct (get s c); intros H; injection H as <- _; exact Hwf.
+  - (* FetchConsumer *)
+    intros H. apply fetch_consumer_state in H. destruct H as [->|[cl [grp [Hc [Hg [_ [_ ->]]]]]]]; [exact Hwf|].
+    apply wf_state_set; [exact Hwf|]. apply wf_cluster_remove_group; [exact (Hall _ _ Hc)|apply (Hall _ _ Hc)].
+  - unfold fetch_topic. destruct (get s c) as [cl|]; [destruct (get (cl_broker cl) t)|]; intros H; injection H as <- _; exact Hwf.
+  - unfold fetch_consumers_for_topic. destruct (get s c); intros H; injection H as <- _; exact Hwf.
+Qed.
+
+Lemma wf_init_state cls : NoDup cls -> wf_state (init_state cls).
+Proof.
+  intros Hnd. unfold init_state. split.
+  - unfold keys. rewrite map_map. cbn [fst]. rewrite map_id. exact Hnd.
+  - intros c cl Hg. apply get_some_in in Hg. apply in_map_iff in Hg. destruct Hg as [x [Hx _]].
+    injection Hx as _ <-. split; [constructor|]. split; [constructor|]. cbn. discriminate.
+Qed.
+
+Theorem run_wf cf h : forall s s' reps, wf_state s -> run cf s h = Some (s', reps) -> wf_state s'.
+Proof.
+  induction h as [|[now r] rest IH]; intros s s' reps Hwf; cbn [run].
+  - intros H. injection H as <- _. exact Hwf.
+  - destruct (step cf now s r) as [s1 rep|] eqn:Es; [|discriminate].
+    destruct (run cf s1 rest) as [[s2 reps2]|] eqn:Er; [|discriminate].
+    intros H. injection H as <- _. exact (IH _ _ _ (step_wf _ _ _ _ _ _ Hwf Es) Er).
+Qed.
+
+Theorem reachable_wf cf cls h s reps : NoDup cls -> run cf (init_state cls) h = Some (s, reps) -> wf_state s.
+Proof. intros Hnd. apply run_wf. apply wf_init_state. exact Hnd. Qed.
+
+(* ------------------------------------------------------------------------------------------ *)
+(* 4. The deletion handlers at the level of [get]                                              *)
+(* ------------------------------------------------------------------------------------------ *)
+
+Definition is_nil {A} (l : list A) : bool := match l with [] => true | _ => false end.
+
+Lemma cluster_eta cl : mkCluster (cl_broker cl) (cl_consumer cl) = cl.
+Proof. destruct cl; reflexivity. Qed.
+
+(* deletions always succeed and have no reply *)
+Theorem deletion_total cf now s :
+  (forall c g t, step cf now s (DeleteGroup c g t) = Done (after cf now s (DeleteGroup c g t)) RNone) /\
+  (forall c t, step cf now s (DeleteTopic c t) = Done (after cf now s (DeleteTopic c t)) RNone).
+Proof.
+  split; intros; unfold after; cbn [step]; [rewrite delete_group_eq|rewrite delete_topic_eq]; reflexivity.
+Qed.
+
+Lemma get_after_delete_group cf now s c g t c' :
+  get (after cf now s (DeleteGroup c g t)) c' =
+  if c =? c' then option_map (fun cl => mkCluster (cl_broker cl) (dg_cons (cl_consumer cl) g t)) (get s c')
+  else get s c'.
+Proof.
+  unfold after. cbn [step]. rewrite delete_group_eq.
+  destruct (c =? c') eqn:E.
+  - apply Z.eqb_eq in E. subst c'. destruct (get s c) as [cl|] eqn:Hc; [|rewrite Hc; reflexivity].
+    destruct (get (cl_consumer cl) g) as [grp|] eqn:Hg.
+    + rewrite get_set_eq. reflexivity.
+    + rewrite Hc. cbn [option_map]. unfold dg_cons. rewrite Hg. rewrite cluster_eta. reflexivity.
+  - apply Z.eqb_neq in E. destruct (get s c) as [cl|]; [|reflexivity].
+    destruct (get (cl_consumer cl) g); [|reflexivity]. apply get_set_neq. exact E.
+Qed.
+
+Lemma get_after_delete_topic cf now s c t c' :
+  get (after cf now s (DeleteTopic c t)) c' =
+  if c =? c' then option_map (fun cl => dt_cluster cl t) (get s c') else get s c'.
+Proof.
+  unfold after. cbn [step]. rewrite delete_topic_eq.
+  destruct (c =? c') eqn:E.
+  - apply Z.eqb_eq in E. subst c'. destruct (get s c) as [cl|] eqn:Hc; [|rewrite Hc; reflexivity].
+    rewrite get_set_eq. reflexivity.
+  - apply Z.eqb_neq in E. destruct (get s c) as [cl|]; [|reflexivity]. apply get_set_neq. exact E.
+Qed.
+
+Lemma keys_set_present {V} (m : amap V) k v x : get m k <> None -> (In x (keys (set m k v)) <-> In x (keys m)).
+Proof.
+  intros Hk. apply get_in_keys in Hk. rewrite keys_set. split.
+  - intros [->|[H _]]; assumption.
+  - intros H. destruct (Z.eq_dec x k); [left; assumption|right; split; assumption].
+Qed.
+
+Lemma keys_after_delete_group cf now s c g t x :
+  In x (keys (after cf now s (DeleteGroup c g t))) <-> In x (keys s).
+Proof.
+  unfold after. cbn [step]. rewrite delete_group_eq.
+  destruct (get s c) as [cl|] eqn:Hc; [|tauto]. destruct (get (cl_consumer cl) g); [|tauto].
+  apply keys_set_present. rewrite Hc. discriminate.
+Qed.
+
+Lemma keys_after_delete_topic cf now s c t x :
+  In x (keys (after cf now s (DeleteTopic c t))) <-> In x (keys s).
+Proof.
+  unfold after. cbn [step]. rewrite delete_topic_eq.
+  destruct (get s c) as [cl|] eqn:Hc; [|tauto]. apply keys_set_present. rewrite Hc. discriminate.
+Qed.
+
+Lemma get_dg_cons_other cons g t g' : g' <> g -> get (dg_cons cons g t) g' = get cons g'.
+Proof.
+  intros Hne. unfold dg_cons. destruct (get cons g) as [grp|]; [|reflexivity].
+  destruct (t =? 0); [apply get_remove_neq; auto|].
+  destruct (remove (g_topics grp) t); [apply get_remove_neq; auto|apply get_set_neq; auto].
+Qed.
+
+Lemma get_dg_cons_whole cons g : get (dg_cons cons g 0) g = None.
+Proof. unfold dg_cons. destruct (get cons g) as [grp|] eqn:E; [|exact E]. cbn. apply get_remove_eq. Qed.
+
+Lemma get_dg_cons_topic cons g t : t <> 0 ->
+  get (dg_cons cons g t) g =
+  match get cons g with
+  | None => None
+  | Some grp => if is_nil (remove (g_topics grp) t) then None
+                else Some (mkCgroup (remove (g_topics grp) t) (g_last grp))
+  end.
+Proof.
+  intros Ht. unfold dg_cons. destruct (get cons g) as [grp|] eqn:E; [|exact E].
+  apply Z.eqb_neq in Ht. rewrite Ht.
+  destruct (remove (g_topics grp) t); cbn [is_nil]; [apply get_remove_eq|apply get_set_eq].
+Qed.
+
+Lemma is_nil_false_other {V} (m : amap V) k : is_nil (remove m k) = false <-> exists k', k' <> k /\ get m k' <> None.
+Proof.
+  split.
+  - intros H. apply remove_not_nil_other. intros E. rewrite E in H. discriminate.
+  - intros [k' [Hne Hg]]. destruct (remove m k) eqn:E; [|reflexivity].
+    exfalso. apply Hg. exact (remove_nil_get _ _ _ E Hne).
+Qed.
+
+Lemma is_nil_remove {V} (m : amap V) k : is_nil (remove m k) = forallb (fun x => x =? k) (keys m).
+Proof.
+  unfold remove, keys. induction m as [|[k' v] r IH]; cbn; [reflexivity|].
+  destruct (k' =? k); cbn; [exact IH|reflexivity].
+Qed.
+
+(* ------------------------------------------------------------------------------------------ *)
+(* 5. Fetch replies through [get]                                                              *)
+(* ------------------------------------------------------------------------------------------ *)
+
+Definition snap_of (grp : cgroup) : list (Z * list cpart) :=
+  map (fun tp => (fst tp, map snapshot_partition (snd tp))) (g_topics grp).
+Definition has_topic (t : Z) (gv : Z * cgroup) : bool :=
+  match get (g_topics (snd gv)) t with Some _ => true | None => false end.
+Definition topic_offsets (tl : list bring) : list Z :=
+  flat_map (fun r => match last r None with Some o => [o] | None => [] end) tl.
+
+(* the reply of a per-cluster fetch request as a function of that cluster's entry alone *)
+Definition cluster_reply (cf : config) (now : Z) (ocl : option cluster) (r : req) : option reply :=
+  match ocl with
+  | None => Some RNil
+  | Some cl =>
+      match r with
+      | FetchConsumers _ => Some (RStrings (keys (cl_consumer cl)))
+      | FetchTopics _ => Some (RStrings (keys (cl_broker cl)))
+      | FetchConsumer _ g =>
+          match get (cl_consumer cl) g with
+          | None => Some RNil
+          | Some grp => if expired cf now (g_last grp) then Some RNil
+                        else option_map RConsumer (fetch_topics_lags (cl_broker cl) (snap_of grp))
+          end
+      | FetchTopic _ t =>
+          match get (cl_broker cl) t with None => Some RNil | Some tl => Some (RInts (topic_offsets tl)) end
+      | FetchConsumersForTopic _ t => Some (RStrings (map fst (filter (has_topic t) (cl_consumer cl))))
+      | _ => None
+      end
+  end.
+
+Lemma obs_cluster cf now s r c :
+  req_cluster r = Some c -> is_fetch r = true -> obs cf now s r = cluster_reply cf now (get s c) r.
+Proof.
+  destruct r; cbn [req_cluster is_fetch]; intros H1 H2; try discriminate H2; try discriminate H1;
+    injection H1 as <-; unfold obs; cbn [step].
+  - destruct (get s c0); reflexivity.
+  - destruct (get s c0); reflexivity.
+  - unfold fetch_consumer, cluster_reply, snap_of. destruct (get s c0) as [cl|]; [|reflexivity].
+    destruct (get (cl_consumer cl) g) as [grp|]; [|reflexivity].
+    destruct (expired cf now (g_last grp)); [reflexivity|]. cbv zeta.
+    match goal with |- context [fetch_topics_lags ?a ?b] => destruct (fetch_topics_lags a b) end; reflexivity.
+  - unfold fetch_topic, cluster_reply, topic_offsets. destruct (get s c0) as [cl|]; [|reflexivity].
+    destruct (get (cl_broker cl) t); reflexivity.
+  - unfold fetch_consumers_for_topic, cluster_reply, has_topic. destruct (get s c0); reflexivity.
+Qed.
+
+Lemma obs_clusters cf now s : obs cf now s FetchClusters = Some (RStrings (keys s)).
+Proof. reflexivity. Qed.
+
+(* a per-cluster fetch only looks at its own cluster *)
+Lemma obs_ext cf now s1 s2 r c :
+  req_cluster r = Some c -> is_fetch r = true -> get s1 c = get s2 c -> obs cf now s1 r = obs cf now s2 r.
+Proof. intros Hc Hf Hg. rewrite (obs_cluster _ _ s1 r c Hc Hf), (obs_cluster _ _ s2 r c Hc Hf), Hg. reflexivity. Qed.
+
+Definition consumes (cons : amap cgroup) (x t : Z) : Prop :=
+  exists v, get cons x = Some v /\ get (g_topics v) t <> None.
+
+Lemma in_for_topic cons t x :
+  NoDup (keys cons) -> (In x (map fst (filter (has_topic t) cons)) <-> consumes cons x t).
+Proof.
+  intros Hnd. unfold consumes.
+  change (filter (has_topic t) cons)
+    with (filter (fun kv => (fun v => match get (g_topics v) t with Some _ => true | None => false end) (snd kv)) cons).
+  rewrite in_filter_keys by exact Hnd. split; intros [v [Hg Hf]]; exists v; (split; [exact Hg|]).
+  - destruct (get (g_topics v) t); [discriminate|discriminate Hf].
+  - destruct (get (g_topics v) t); [reflexivity|contradiction].
+Qed.
+
+(* fetch_topics_lags is compositional in the topic list: removing a consumer topic removes its entry *)
+Lemma fetch_topics_lags_keys b snap l : fetch_topics_lags b snap = Some l -> map fst l = map fst snap.
+Proof.
+  revert l. induction snap as [|[t cps] rest IH]; cbn [fetch_topics_lags]; intros l H.
+  - injection H as <-. reflexivity.
+  - destruct (match get b t with None => Some cps | Some tl => add_lags tl 0 cps end) as [cps'|]; [|discriminate].
+    destruct (fetch_topics_lags b rest) as [rest'|]; [|discriminate].
+    injection H as <-. cbn. f_equal. apply IH. reflexivity.
+Qed.
+
+Lemma fetch_topics_lags_remove b snap l t :
+  fetch_topics_lags b snap = Some l -> fetch_topics_lags b (remove snap t) = Some (remove l t).
+Proof.
+  revert l. induction snap as [|[t0 cps] rest IH]; cbn [fetch_topics_lags]; intros l H.
+  - injection H as <-. reflexivity.
+  - destruct (match get b t0 with None => Some cps | Some tl => add_lags tl 0 cps end) as [cps'|] eqn:Eh; [|discriminate].
+    destruct (fetch_topics_lags b rest) as [rest'|]; [|discriminate].
+    injection H as <-. unfold remove at 1 2. cbn [filter fst].
+    destruct (t0 =? t); cbn [negb].
+    + apply IH. reflexivity.
+    + cbn [fetch_topics_lags]. rewrite Eh. fold (remove rest t). rewrite (IH rest' eq_refl). reflexivity.
+Qed.
+
+(* ... and the broker side may forget a topic that the consumer side does not mention *)
+Lemma fetch_topics_lags_broker_ext b b' snap :
+  (forall t, In t (map fst snap) -> get b' t = get b t) -> fetch_topics_lags b' snap = fetch_topics_lags b snap.
+Proof.
+  induction snap as [|[t cps] rest IH]; cbn [fetch_topics_lags]; intros H; [reflexivity|].
+  rewrite (H t) by (left; reflexivity). rewrite IH; [reflexivity|]. intros t' Hin. apply H. right. exact Hin.
+Qed.
+
+Lemma snap_of_remove tops last t : snap_of (mkCgroup (remove tops t) last) = remove (snap_of (mkCgroup tops last)) t.
+Proof.
+  unfold snap_of, remove. cbn [g_topics]. induction tops as [|[t0 ps] r IH]; cbn; [reflexivity|].
+  destruct (t0 =? t); cbn; [exact IH|]. f_equal. exact IH.
+Qed.
+
+Lemma keys_snap_of grp : map fst (snap_of grp) = keys (g_topics grp).
+Proof. unfold snap_of, keys. rewrite map_map. reflexivity. Qed.
